@@ -42,7 +42,7 @@ NullVars(G) == NullLfp(G, {})                  \* variables deriving the empty w
 RECURSIVE ReachLfp(_,_)
 ReachLfp(G, S) == LET S2 == S \cup UNION { BodySyms(p[2]) : p \in { q \in G.prods : q[1] \in S } }
                   IN IF S2 = S THEN S ELSE ReachLfp(G, S2)
-ReachSyms(G) == ReachLfp(G, {G.start})         \* symbols occurring in a sentential form from the start symbol
+ReachSyms(G) == IF G.start = "none" THEN {} ELSE ReachLfp(G, {G.start})         \* symbols occurring in a sentential form from the start symbol
 IsEmptyLang(G) == G.start \notin GenVars(G)
 
 (* useful part: productions all of whose symbols are generating, reachable from the start through such productions *)
